@@ -930,6 +930,8 @@ Definition merge_clause (k : ckind) (elt : cx) (others : list cx) (g : cx) : opt
   | XGen (TName x) (XComp ik (XName y) idval igens) [] =>
       let inner := XComp ik (XName y) idval igens in
       if negb (last_target_is igens y) then None
+      (* f6bcd55: an eager list / set / dict comprehension is not merged into a lazy generator expression *)
+      else if (match k, ik with CGen, CGen => false | CGen, _ => true | _, _ => false end) then None
       else if (match ik with CSet | CDict => true | _ => false end)
               && negb (match k, elt with
                        | CSet, XName x' | CDict, XName x' => Nat.eqb x x'
